@@ -25,7 +25,7 @@ from harness.common import Ctx, Disagreement, Failure
 
 THEOREM_MODULES = ['ExaModel.Props.C07']
 DRIVERS = ['drv_nego']
-TABLES = ['cap']
+TABLES = ['cap', 'pynego']
 PROP = 'C07'
 ASSUMPTIONS = [
     'neighbor configurations are built through NeighborSettings / Neighbor.from_settings (host/domain names in the alphabet and length the configuration parser accepts)',
